@@ -683,8 +683,25 @@ def orm_assoc_name(prog: Program) -> RuleResult:
     return r
 
 
+def orm_parent(prog: Program) -> RuleResult:
+    """'One DAO per class, mirroring the inheritance chain': the DAO of a class derives from the DAO of its nearest *mapped* ancestor - which need
+    not be a direct base (A mapped, B(A) left out of the class list, C(B) mapped: CDAO derives from ADAO).  The ordering graph finds that
+    ancestor along the MRO (ORM-ORDER); the table has to look in the same place, or CDAO derives from Base and maps A's columns again."""
+    r = RuleResult("ORM-PARENT", "the parent table of a class is looked for along the whole MRO", floor=1)
+    wt = prog.cls(WT)
+    f = wt.methods.get("_find_direct_parent_wrapped") or next((m for m in wt.methods.values() if "parent" in m.name and any(isinstance(x, ast.Attribute) and x.attr in ("__mro__", "__bases__") for x in walk_local(m.node))), None)
+    if f is None:
+        raise AnalysisError("ORM-PARENT: no method of WrappedTable looks for the parent class")
+    attrs = {x.attr for x in walk_local(f.node) if isinstance(x, ast.Attribute)}
+    mro = "__mro__" in attrs or any(call_name(c) == "mro" for c in calls_in(f.node))
+    r.check(mro, f"{f.short}#along-the-mro", site(f), "__mro__" if mro else "__bases__" if "__bases__" in attrs else "?", "ancestors are scanned along the MRO",
+            f"{f.short} looks at {'the direct bases' if '__bases__' in attrs else 'something else than the MRO'} only: with an unmapped class between two mapped ones the lower DAO derives from Base, "
+            "re-declares the columns of the upper one and is no part of its polymorphic hierarchy")
+    return r
+
+
 def run(prog: Program, tier: str) -> List[RuleResult]:
     # the generator reads every field through its resolved annotation: an unresolved forward reference is no class to map
     from .c17 import wf_resolved
 
-    return [guard(lambda: wf_table(prog)), guard(lambda: orm_dispatch(prog)), guard(lambda: orm_imports(prog)), guard(lambda: orm_names(prog)), guard(lambda: orm_determinism(prog)), guard(lambda: orm_memo(prog)), guard(lambda: wf_resolved(prog)), guard(lambda: orm_order(prog)), guard(lambda: orm_fields_once(prog)), guard(lambda: orm_id_memo(prog)), guard(lambda: orm_assoc_name(prog))]
+    return [guard(lambda: wf_table(prog)), guard(lambda: orm_dispatch(prog)), guard(lambda: orm_imports(prog)), guard(lambda: orm_names(prog)), guard(lambda: orm_determinism(prog)), guard(lambda: orm_memo(prog)), guard(lambda: wf_resolved(prog)), guard(lambda: orm_order(prog)), guard(lambda: orm_fields_once(prog)), guard(lambda: orm_id_memo(prog)), guard(lambda: orm_assoc_name(prog)), guard(lambda: orm_parent(prog))]
